@@ -201,7 +201,16 @@ func (s *synth) value(t reflect.Type, name string, depth int) (reflect.Value, bo
 				v.SetInt(int64(r.Intn(129)))
 			}
 		case strings.Contains(ln, "timer"):
-			v.SetInt(int64(r.Intn(1200000)) - 10)
+			switch r.Intn(4) {
+			case 0:
+				v.SetInt(int64(r.Intn(70)) - 2)
+			case 1:
+				v.SetInt(int64(r.Intn(2000)))
+			case 2:
+				v.SetInt(int64(r.Intn(12000)))
+			default:
+				v.SetInt(int64(r.Intn(1200000)) - 10)
+			}
 		case strings.Contains(ln, "minvalue"), strings.Contains(ln, "maxvalue"), ln == "min", ln == "max":
 			v.SetInt(int64(r.Intn(24)) - 4)
 		case ln == "sst":
